@@ -26,6 +26,7 @@ import (
 	"os"
 	"path/filepath"
 	"sort"
+	"strconv"
 	"strings"
 )
 
@@ -151,6 +152,7 @@ type alias struct {
 }
 
 type fn struct {
+	usesEnv  bool
 	name     string
 	env      map[string]kind
 	aliases  map[string]alias
@@ -167,6 +169,15 @@ func (f *fn) bad(what string) string {
 		}
 		return '_'
 	}, what)
+}
+
+func isPlainASCII(s string) bool {
+	for i := 0; i < len(s); i++ {
+		if s[i] < 32 || s[i] > 126 {
+			return false
+		}
+	}
+	return true
 }
 
 func ident(e ast.Expr) string {
@@ -236,6 +247,25 @@ func (f *fn) call(c *ast.CallExpr) (string, []kind) {
 	if isErrFactory(ch[0]) { // ErrFailedParsing.Msg(...): some non-nil error
 		return "true", []kind{kErr}
 	}
+	switch strings.Join(ch, ".") {
+	case "envVarTmplMatcher.FindStringSubmatch":
+		if len(c.Args) == 1 {
+			a, _ := f.expr(c.Args[0], kString)
+			return "(find_submatch " + a + ")", []kind{kStrSlice}
+		}
+	case "os.LookupEnv":
+		if len(c.Args) == 1 {
+			a, _ := f.expr(c.Args[0], kString)
+			f.usesEnv = true
+			return "(os_lookup_env env " + a + ")", []kind{kString, kBool}
+		}
+	case "strings.Trim":
+		if len(c.Args) == 2 {
+			a, _ := f.expr(c.Args[0], kString)
+			b, _ := f.expr(c.Args[1], kString)
+			return "(strings_trim " + a + " " + b + ")", []kind{kString}
+		}
+	}
 	recv, rk := ch[0], f.env[ch[0]]
 	switch {
 	case rk == kDimPtr && len(ch) == 2 && ch[1] == "get" && len(c.Args) == 0:
@@ -282,7 +312,19 @@ func (f *fn) expr(e ast.Expr, want kind) (string, kind) {
 		if x.Kind == token.INT {
 			return x.Value, kInt
 		}
+		if x.Kind == token.STRING {
+			if v, err := strconv.Unquote(x.Value); err == nil && isPlainASCII(v) {
+				return "\"" + strings.ReplaceAll(v, "\"", "\"\"") + "\"%string", kString
+			}
+		}
 		return f.bad("literal"), kUnknown
+	case *ast.IndexExpr:
+		a, k := f.expr(x.X, kUnknown)
+		i, ik := f.expr(x.Index, kInt)
+		if k == kStrSlice && ik == kInt {
+			return "(str_nth " + a + " " + i + ")", kString
+		}
+		return f.bad("index expression"), kUnknown
 	case *ast.UnaryExpr:
 		if x.Op == token.NOT {
 			a, _ := f.expr(x.X, kBool)
@@ -701,21 +743,34 @@ type target struct {
 	rec  bool
 }
 
-var wanted = []target{
-	{"builder.go", "keySet", false},
-	{"builder.go", "parsesAll", false},
-	{"builder.go", "switchDimension", false},
-	{"builder.go", "reduceAny", true},
-	{"config.go", "extract", false},
+var sets = map[string][]target{
+	"resolve": {
+		{"builder.go", "keySet", false},
+		{"builder.go", "parsesAll", false},
+		{"builder.go", "switchDimension", false},
+		{"builder.go", "reduceAny", true},
+		{"config.go", "extract", false},
+	},
+	"templates": {
+		{"yaml_templates.go", "MatchAndResolve", false},
+	},
 }
+
+var wanted []target
 
 func main() {
 	src := flag.String("src", "", "directory of the gconfig module")
 	out := flag.String("out", "GConfGen.v", "output file")
+	set := flag.String("set", "resolve", "which functions: resolve (builder.go, config.go) | templates (yaml_templates.go)")
 	flag.Parse()
+	wanted = sets[*set]
+	if wanted == nil {
+		fmt.Fprintln(os.Stderr, "unknown -set")
+		os.Exit(2)
+	}
 	fset := token.NewFileSet()
 	decls := map[string]*ast.FuncDecl{}
-	for _, name := range []string{"builder.go", "config.go"} {
+	for _, name := range []string{"builder.go", "config.go", "yaml_templates.go"} {
 		file, err := parser.ParseFile(fset, filepath.Join(*src, name), nil, 0)
 		if err != nil {
 			fmt.Fprintln(os.Stderr, err)
@@ -753,8 +808,12 @@ func main() {
 		sigs[t.name] = s
 	}
 	var b strings.Builder
-	b.WriteString("(* GENERATED by harness/cmd/xlate_gconf from gconfig/builder.go and gconfig/config.go of the current tree — do not edit *)\n")
-	b.WriteString("From Coq Require Import List String Bool Arith.\nImport ListNotations.\nFrom GT Require Import GConfModel GConfGenPrims.\n\n")
+	b.WriteString("(* GENERATED by harness/cmd/xlate_gconf (-set " + *set + ") from the gconfig sources of the current tree — do not edit *)\n")
+	b.WriteString("From Coq Require Import List String Bool Arith.\nImport ListNotations.\nFrom GT Require Import GConfModel GConfGenPrims.\n")
+	if *set == "templates" {
+		b.WriteString("From GT Require Import TmplModel TmplGenPrims.\n")
+	}
+	b.WriteString("\n")
 	var problems []string
 	for _, t := range wanted {
 		fd, ok := decls[t.file+":"+t.name]
@@ -789,8 +848,26 @@ func main() {
 				head += " (v_" + n.Name + " : " + kd.coq() + ")"
 			}
 		}
+		// named results are variables initialised to their zero values
+		pre := ""
+		if fd.Type.Results != nil {
+			i := 0
+			for _, r := range fd.Type.Results.List {
+				for _, n := range r.Names {
+					f.env[n.Name] = f.results[i]
+					pre += "let v_" + n.Name + " := " + f.results[i].zero() + " in\n  "
+					i++
+				}
+				if len(r.Names) == 0 {
+					i++
+				}
+			}
+		}
+		body := pre + f.stmts(fd.Body.List, "MISSING_RETURN", "", "  ")
+		if f.usesEnv {
+			head = strings.Replace(head, "Definition gen_"+t.name, "Definition gen_"+t.name+" (env : list (string * string))", 1)
+		}
 		head += " : " + strings.Join(resT, " * ")
-		body := f.stmts(fd.Body.List, "MISSING_RETURN", "", "  ")
 		if strings.Contains(body, "MISSING_RETURN") {
 			body = strings.ReplaceAll(body, "MISSING_RETURN", f.bad("missing return"))
 		}
@@ -799,7 +876,11 @@ func main() {
 			problems = append(problems, t.name+": "+p)
 		}
 	}
-	b.WriteString("(* translated: keySet, dimension.parsesAll, switchDimension, reduceAny (as a functional of its recursive call), extract *)\n")
+	names := make([]string, len(wanted))
+	for i, t := range wanted {
+		names[i] = t.name
+	}
+	b.WriteString("(* translated: " + strings.Join(names, ", ") + " (a recursive function as a functional of its recursive call) *)\n")
 	if err := os.WriteFile(*out, []byte(b.String()), 0o644); err != nil {
 		fmt.Fprintln(os.Stderr, err)
 		os.Exit(2)
